@@ -39,11 +39,11 @@ def Parser.getU32 (p : Parser) (off : Nat) : Option Nat := p.nat off 4
 def Parser.getF64 (nm : Num R) (p : Parser) (off : Nat) : Option R := (p.nat off 8).map fun v => nm.f64 (UInt64.ofNat v)
 def Parser.getF32 (nm : Num R) (p : Parser) (off : Nat) : Option R := (p.nat off 4).map fun v => nm.f32 (UInt32.ofNat v)
 
-/-- `std::str::from_utf8` on ASCII (non-ASCII bytes in a name field are an error) -/
+/-- `std::str::from_utf8` on a field (invalid UTF-8 in a name field is an error) -/
 def Parser.getStr (p : Parser) (off len : Nat) : Option Str :=
   match slice p.buf off len with
   | none => none
-  | some bs => if bs.all (· < 128) then some (bs.map fun b => Char.ofNat b.toNat) else none
+  | some bs => Grid.utf8Decode bs
 
 def Parser.cmpStr (p : Parser) (off : Nat) (s : String) : Bool :=
   p.getStr off s.length == some s.toList
